@@ -1,6 +1,7 @@
 package drv
 
 import (
+	"reflect"
 	"runtime"
 	"sort"
 	"strings"
@@ -38,6 +39,50 @@ type LockMon struct {
 	Yield   func(ev string)
 	WantG   bool
 	WantCtx bool
+	// TxnSizes, when non-nil, collects for every transaction that reaches its commit the number of blocks it
+	// holds after PreCommit (what the journal has to take) and whether it is one of shrinker.DoShrink
+	TxnSizes *[]TxnSize
+}
+
+// TxnSize: one committing transaction: K = "bg" (a transaction of shrinker.DoShrink) | "rpc"; N = blocks it holds
+type TxnSize struct {
+	K string `json:"k"`
+	N int    `json:"n"`
+}
+
+// txnBlocks counts the distinct disk blocks among the transaction's dirty buffers: what the journal has to hold
+// (Op.NDirty() counts buffers - a bitmap bit, an inode and a block are one buffer each). The buffers are
+// unexported state of go-journal's jrnl.Op, read here by reflection.
+func txnBlocks(op *fstxn.FsTxn) int {
+	bufs := reflect.ValueOf(op.Atxn.Op).Elem().FieldByName("bufs")
+	if !bufs.IsValid() || bufs.IsNil() {
+		return -1
+	}
+	addrs := bufs.Elem().FieldByName("addrs")
+	blks := map[uint64]bool{}
+	it := addrs.MapRange()
+	for it.Next() {
+		b := it.Value().Elem()
+		if b.FieldByName("dirty").Bool() {
+			blks[b.FieldByName("Addr").FieldByName("Blkno").Uint()] = true
+		}
+	}
+	return len(blks)
+}
+
+func inDoShrink() bool {
+	pc := make([]uintptr, 32)
+	n := runtime.Callers(3, pc)
+	fr := runtime.CallersFrames(pc[:n])
+	for {
+		f, more := fr.Next()
+		if strings.HasSuffix(f.Function, ".DoShrink") {
+			return true
+		}
+		if !more {
+			return false
+		}
+	}
 }
 
 var Mon = &LockMon{txnIds: map[uintptr]int{}, held: map[uint64]int{}}
@@ -64,6 +109,14 @@ func (m *LockMon) hook(ev string, op *fstxn.FsTxn, inum uint64) {
 	case "rel":
 		delete(m.held, inum)
 	case "abort", "committed":
+	case "precommit":
+		if m.TxnSizes != nil {
+			k := "rpc"
+			if inDoShrink() {
+				k = "bg"
+			}
+			*m.TxnSizes = append(*m.TxnSizes, TxnSize{k, txnBlocks(op)})
+		}
 	}
 	if m.rec {
 		e := LockEv{Seq: m.seq, Ev: ev, Txn: id, Inum: inum}
